@@ -6,6 +6,7 @@ package sim
 // boundary, with --seed held fixed; outputs must be byte-identical.
 
 import (
+	"bufio"
 	"fmt"
 	"math/rand"
 	"os"
@@ -20,6 +21,7 @@ import (
 	"github.com/evolbioinfo/gotree/acr"
 	"github.com/evolbioinfo/gotree/cmd"
 	"github.com/evolbioinfo/gotree/io/nexus"
+	"github.com/evolbioinfo/gotree/io/utils"
 	"github.com/evolbioinfo/gotree/tree"
 	"github.com/spf13/cobra"
 	"github.com/spf13/pflag"
@@ -77,6 +79,23 @@ var libTemplates = []detTemplate{
 		}
 		err := t.RemoveTips(false, rm...)
 		return t.Newick(), err
+	}},
+	{name: "lib-avg-distance-matrix", lib: func(f map[string]string, c *DetCase) (string, error) {
+		// the averaged matrix with every bit of its values (the command prints 12 decimals only)
+		in := utils.ReadMultiTrees(bufio.NewReader(strings.NewReader(f["trees.nw"])), utils.FORMAT_NEWICK)
+		mat, tips, err := tree.AvgDistanceMatrix(c.Seed%3, in)
+		if err != nil {
+			return "", err
+		}
+		var b strings.Builder
+		for i, row := range mat {
+			b.WriteString(tips[i].Name())
+			for _, v := range row {
+				b.WriteString(" " + strconv.FormatFloat(v, 'g', -1, 64))
+			}
+			b.WriteString("\n")
+		}
+		return b.String(), nil
 	}},
 	{name: "lib-removetips-clone-revert", lib: func(f map[string]string, c *DetCase) (string, error) {
 		t := firstTree(f, "one.nw").Clone()
